@@ -2172,7 +2172,11 @@ func (interp *Interpreter) cfg(root *node, sc *scope, importPath, pkgName string
 					}
 					// If last case body statement is a fallthrough, then jump to next case body
 					if i < l-1 && len(body.child) > 0 && body.lastChild().kind == fallthroughtStmt {
-						body.tnext = clauses[i+1].lastChild().start
+						if len(clauses[i+1].child) == 0 {
+							body.tnext = n // Fallthrough to next with empty body, just exit.
+						} else {
+							body.tnext = clauses[i+1].lastChild().start
+						}
 					} else {
 						body.tnext = n
 					}
